@@ -81,7 +81,8 @@ class Analysis:
                     live = [(p, t) for p, t in tr if v[t] != 0]
                     if len(live) != len(tr):
                         tot = sum(p for p, _ in live)
-                        live = [(p / tot, t) for p, t in live]
+                        if tot != 0:
+                            live = [(p / tot, t) for p, t in live]
                     tl.append(live)
                 else:
                     tl.append(list(tr))
@@ -195,7 +196,8 @@ def conditioned_game(gd, reach_strats, probs, prune):
                 live = [(p, t) for p, t in tr if probs[t] != 0]
                 if len(live) != len(tr):
                     tot = sum(p for p, _ in live)
-                    live = [(p / tot, t) for p, t in live]
+                    if tot != 0:             # surviving mass 0: only zero-probability branches are left, nothing to rescale
+                        live = [(p / tot, t) for p, t in live]
                 new = live
             else:
                 new = list(tr)
